@@ -41,7 +41,12 @@ def analyse(prop, repo, tier='quick'):
         looked_at = '%s:%s' % (nf.rel, nf.qualname) in ctx.functions
         if not looked_at and not (err is not None and key not in before):
             continue          # normalised while discovering methods, not analysed by this property
+        seen_issue = set()
         for node, table, ktext, missing in nf.memo_issues:
+            ik = (getattr(node, 'lineno', 0), getattr(node, 'col_offset', 0), table, ktext, repr(missing))
+            if ik in seen_issue:
+                continue          # the same table judged by two passes of the front-end
+            seen_issue.add(ik)
             n_memo += 1
             if table == '!one-shot':
                 ctx.ob('iterator-reuse', nf, node, False, missing[0][1:-1], construct='second walk of `%s`' % ktext)
